@@ -20,6 +20,11 @@ THEOREMS = [
     "RedunModel.C22.recordCallNode_prefix_consistent",
     "RedunModel.C22.hist_cons",
     "RedunModel.C22.hist_cons_repaired",
+    "RedunModel.C22.hist_cons_proposed",
+    "RedunModel.C22.known_retry_loses_argument_rows",
+    "RedunModel.C22.known_nested_retry_drops_pending",
+    "RedunModel.Db.recordCallNode_cons_any",
+    "RedunModel.Db.recordCallNode_shapes",
     "RedunModel.C22.refuted_task_gap",
     "RedunModel.C22.refuted_retry_loses_rows",
     "RedunModel.C22.refuted_retry_keyerror",
@@ -58,12 +63,14 @@ RULE = ("a case = (program, crash point) or (program, fault position): the progr
         "program: ALL commits / ALL positions; generated programs: sampled positions (quick) or all (thorough). Every "
         "backend operation of every run is replayed on the Lean model. distinct = (program shape, kind, position); all "
         "non-trivial")
-LEVEL_TEXT = ("Lean 4 proof. Full strength for the repaired recording code: hist_cons (every durable state of every history "
-              "of recording operations with process deaths at any commit is referentially closed and has a Task row for "
-              "every Task value) built from fk_commit and the five *_prefix_consistent theorems; recordCallNode_atomic "
-              "(a call node is durable only together with its edges, arguments' graph part and subtree rows). The clause "
-              "'later runs return what a fresh run returns' is C03.history_shallow_sound (cache soundness on the same "
-              "histories) plus the result oracle: partial. For the unrepaired code: refuted_task_gap, "
+LEVEL_TEXT = ("Lean 4 proof. Full strength for the first clause, for every variant with the one-commit record_value (fix d), "
+              "two-commit record_call_node included: hist_cons (every durable state of every history of recording "
+              "operations with process deaths at any commit is referentially closed and has a Task row for every Task "
+              "value) built from fk_commit and the five *_prefix_consistent theorems; recordCallNode_shapes (which call "
+              "graph a crash can leave). 'Later runs return what a fresh run returns' is C03.history_shallow_sound on the "
+              "same histories plus the result oracle: partial. 'Retried operations neither duplicate nor lose records' is "
+              "FALSE for record_call_node even with the proposed fixes: known_retry_loses_argument_rows, "
+              "known_nested_retry_drops_pending (known findings). For the unrepaired code: refuted_task_gap, "
               "refuted_retry_loses_rows, refuted_retry_keyerror.")
 LEVEL_NOTE = ("partial where the truth lives in the runtime: real process death is simulated by discarding the session at a "
               "commit boundary (no torn pages, no half-written journal), OperationalError is injected, not provoked. "
